@@ -120,6 +120,34 @@ class CodonHeldReference(Case):
         return [r[1], r[2], r[3], r[4], r[5]]
 
 
+class CodonRegistryStable(Case):
+    """The codon registry is process-wide state behind every Codon(...) call: a codon obtained at the start is still
+    THE codon of its spelling after every one of the 3375 IUPAC triplets has been constructed in between (codon
+    equality is identity, and the start-codon sets hold the objects created at import), and it still answers the
+    start-codon question the same way."""
+    name = "Codon registry[a held codon survives the construction of all 3375 IUPAC triplets]"
+    props = ("C15", "C10")
+    func = "gene.codon.Codon.__new__"
+    call = ("(lambda held, before: ([Codon(x) for x in allc], held is Codon(c), "
+            "held.is_start_codon_in_specific_translation_table(TranslationTable.PROKARYOTE) == before, "
+            "Codon(c).is_start_codon_in_specific_translation_table(TranslationTable.PROKARYOTE) == before)[1:])"
+            "(Codon(c), Codon(c).is_start_codon_in_specific_translation_table(TranslationTable.PROKARYOTE))")
+    ensures = {"same-object-same-answers": lambda i, r: tuple(r) == (True, True, True)}
+
+    def inputs(self, S):
+        import itertools
+        letters = "ACGTRYSWKMBDHVN"
+        allc = ["".join(t) for t in itertools.product(letters, repeat=3)]
+        return NS(c=S.const("c"), allc=allc, Codon=S.cls("gene.codon.Codon"),
+                  TranslationTable=S.cls("gene.codon.TranslationTable"))
+
+    def ground(self):
+        yield {"c": "TTG"}  # a start codon of the prokaryote table only
+
+    def observe(self, r):
+        return list(r)
+
+
 class GencodeTables(Case):
     """The literal tables themselves (gencode, extended_gencode, aacodons) against the embedded NCBI table."""
     name = "constants[gencode, extended_gencode, aacodons]"
@@ -356,7 +384,7 @@ class CodonFrames(Case):
                            "location.strand.Strand"], kinds=("frame", "kind", "escape"), accepted={})
 
 
-CASES = [CodonFrames(), CodonTriplets(), CodonConstructor(), CodonHeldReference(), GencodeTables(), ComplementTables(), FrameShift(), FramePhase(),
+CASES = [CodonFrames(), CodonTriplets(), CodonConstructor(), CodonHeldReference(), CodonRegistryStable(), GencodeTables(), ComplementTables(), FrameShift(), FramePhase(),
          FrameFromInt(), StrandAlgebra(), StrandFromSymbol(), StrandFromInt(), BiotypeSynonyms()]
 
 CANARIES = [
